@@ -3,7 +3,7 @@
 From Coq Require Import List ZArith.
 From Coq.Strings Require Import Byte.
 From GI Require Import Lib.Bytes Gen.CacheConsts Cache.CacheEntry Cache.CacheEntryFacts Cache.Cache Cache.CacheSeqFacts
-  Cache.CacheFault Cache.CacheHolds Cache.CacheHoldsFacts Cache.CacheFd Cache.CacheFdFacts.
+  Cache.CacheFault Cache.CacheHolds Cache.CacheHoldsFacts Cache.CacheFd Cache.CacheFdFacts Cache.CacheHash Cache.CacheHashFacts.
 Import ListNotations.
 
 Theorem C05_entry_roundtrip : forall id out size tm,
@@ -134,3 +134,41 @@ Theorem C05_put_bytes_get : forall (H : bytes -> bytes),
     fs' (DatP (H d)) = Some d.
 Proof. exact put_get. Qed.
 Print Assumptions C05_put_bytes_get.
+
+(* ---- cache/hash.go: however the data is cut into Write calls, Hash.Sum is SHA-256 of the whole *)
+Theorem C05_hash_sum_chunks : forall (H : bytes -> bytes) chunks,
+  hash_sum H (fold_left hash_write chunks new_hash) = H (concat chunks).
+Proof. exact hash_sum_chunks. Qed.
+Print Assumptions C05_hash_sum_chunks.
+
+(* Subkey is unambiguous: ids have a fixed length, so what is hashed determines parent and description *)
+Theorem C05_subkey_inj : forall (H : bytes -> bytes) (U : bytes -> Prop),
+  (forall a b, U a -> U b -> H a = H b -> a = b) ->
+  forall p d p' d', length p = length p' ->
+  U (subkey_preimage p d) -> U (subkey_preimage p' d') ->
+  subkey H p d = subkey H p' d' -> p = p' /\ d = d'.
+Proof. exact subkey_inj. Qed.
+Print Assumptions C05_subkey_inj.
+
+(* FileHash: a name not yet known is hashed from the disk; a failure is not remembered; once a name
+   has a sum (computed, or set by SetFileHash) FileHash answers it whatever the disk holds by then *)
+Theorem C05_file_hash_fresh : forall (H : bytes -> bytes) t disk name c,
+  fh_lookup t name = None -> disk name = Some c ->
+  file_hash H t disk name = (set_file_hash t name (H c), Some (H c)).
+Proof. exact file_hash_fresh. Qed.
+Print Assumptions C05_file_hash_fresh.
+
+Theorem C05_file_hash_failure_not_remembered : forall (H : bytes -> bytes) t disk name,
+  fh_lookup t name = None -> disk name = None -> file_hash H t disk name = (t, None).
+Proof. exact file_hash_failure_not_remembered. Qed.
+Print Assumptions C05_file_hash_failure_not_remembered.
+
+Theorem C05_file_hash_twice : forall (H : bytes -> bytes) t disk disk' name t1 s,
+  file_hash H t disk name = (t1, Some s) -> file_hash H t1 disk' name = (t1, Some s).
+Proof. exact file_hash_twice. Qed.
+Print Assumptions C05_file_hash_twice.
+
+Theorem C05_set_then_file_hash : forall (H : bytes -> bytes) t disk name s,
+  file_hash H (set_file_hash t name s) disk name = (set_file_hash t name s, Some s).
+Proof. exact set_then_file_hash. Qed.
+Print Assumptions C05_set_then_file_hash.
